@@ -1,37 +1,50 @@
-/* spec/iso.h -- ISO 8601 week dates and the other week-count conventions,
- * from first principles (week 1 is the week containing Jan 4th / the first Thursday). */
+/* spec/iso.h -- ISO 8601 week dates and the other week-count conventions.
+ * FP_*: from first principles (week 1 is the week containing Jan 4th / the first Thursday);
+ * S_*: table forms used in contracts, proved equal to FP_* by spec lemmas on every run. */
 #ifndef VERIF_SPEC_ISO_H
 #define VERIF_SPEC_ISO_H
 #include "greg.h"
 
-/* day number of the Monday of ISO week 1 of ISO year y: Monday on or before Jan 4 */
-#define S_ISOMON1(y) ((S_JAN00(y) + 4) - (S_WDAY(S_JAN00(y) + 4) - 1))
-static inline int S_isomon1(int y) { return S_ISOMON1(y); }
-#define S_ISOWEEKS(y) ((S_ISOMON1((y) + 1) - S_ISOMON1(y)) / 7)
-static inline int S_isoweeks(int y) { return S_ISOWEEKS(y); }
+/* first principles: day number of the Monday of ISO week 1 of ISO year y = Monday on or before Jan 4 */
+#define FP_ISOMON1(y) ((S_JAN00(y) + 4) - (S_WDAY(S_JAN00(y) + 4) - 1))
+#define FP_ISOWEEKS(y) ((FP_ISOMON1((y) + 1) - FP_ISOMON1(y)) / 7)
+#define FP_HANG(y) (FP_ISOMON1(y) - S_JAN00(y) - 1)
+
+/* contract forms */
 /* dateutils' "hang": offset such that yday = 7(c-1) + w + hang; = mon1 - jan00 - 1, in -3..3 */
-#define S_HANG(y) (S_ISOMON1(y) - S_JAN00(y) - 1)
+#define S_HANG(y) ((int)T_HANGWD[S_J01WD(y)])
+#define S_ISOMON1(y) (S_JAN00(y) + 1 + S_HANG(y))
+#define S_ISOWEEKS(y) ((int)T_NWK[S_YIDX(y)])
+static inline int S_isomon1(int y) { return S_ISOMON1(y); }
+static inline int S_isoweeks(int y) { return S_ISOWEEKS(y); }
 static inline int S_hang(int y) { return S_HANG(y); }
 
+/* the day an ISO week date denotes, year-relative: its Gregorian year and day-of-year.
+ * raw yday relative to Jan 0 of the ISO year (may be < 1 or > number of days: then the day lies in
+ * the neighbouring Gregorian year).  Only table facts and small numbers: no arithmetic on J(y+-1).
+ * Lemma L_ywd: S_ywd_daisy(y,c,w) == FP_ISOMON1(y) + 7(c-1) + (w-1). */
+#define S_YWD_RAWYD(y, c, w) (7 * ((c) - 1) + (w) + S_HANG(y))
+static inline int S_ywd_gyear(int y, int c, int w)
+{ int r = S_YWD_RAWYD(y, c, w); return r < 1 ? y - 1 : r > S_YDAYS(y) ? y + 1 : y; }
+static inline int S_ywd_gyd(int y, int c, int w)
+{ int r = S_YWD_RAWYD(y, c, w); return r < 1 ? r + S_YDAYS(y - 1) : r > S_YDAYS(y) ? r - S_YDAYS(y) : r; }
 static inline int S_ywd_daisy(int y, int c, int w)
-{ return S_ISOMON1(y) + 7 * (c - 1) + (w - 1); }
+{ return S_JAN00(S_ywd_gyear(y, c, w)) + S_ywd_gyd(y, c, w); }
 static inline int V_ywd(int y, int c, int w)
 { return V_YEAR(y) && c >= 1 && c <= S_ISOWEEKS(y) && w >= 1 && w <= 7; }
 /* (Y,W,D) is THE ISO week date of day n */
 static inline int R_ywd_of(int n, int y, int c, int w)
-{ return c >= 1 && c <= 53 && w >= 1 && w <= 7 && w == S_WDAY(n) &&
-	 S_ISOMON1(y) <= n && n < S_ISOMON1(y + 1) && c == (n - S_ISOMON1(y)) / 7 + 1; }
+{ return y >= 1601 && y <= 4096 && c >= 1 && c <= S_ISOWEEKS(y) && w >= 1 && w <= 7 && S_ywd_daisy(y, c, w) == n; }
 
 /* week-of-year conventions, for day-of-year yd in year y
  * %U: week 1 starts on the first Sunday; days before are week 0
  * %W: week 1 starts on the first Monday; days before are week 0
  * %C (abs): the n-th occurrence of that weekday in the year: (yd-1)/7+1 */
 static inline int S_wcnt_sun(int y, int yd)
-{ /* number of Sundays among days 1..yd */
-	int j01 = S_j01wd(y); int first_sun = 1 + ((7 - j01) % 7); /* yday of first Sunday */
+{	int j01 = S_J01WD(y); int first_sun = 1 + ((7 - j01) % 7); /* yday of first Sunday */
 	return yd < first_sun ? 0 : (yd - first_sun) / 7 + 1; }
 static inline int S_wcnt_mon(int y, int yd)
-{ int j01 = S_j01wd(y); int first_mon = 1 + ((8 - j01) % 7);
+{	int j01 = S_J01WD(y); int first_mon = 1 + ((8 - j01) % 7);
 	return yd < first_mon ? 0 : (yd - first_mon) / 7 + 1; }
 static inline int S_wcnt_abs(int yd) { return (yd - 1) / 7 + 1; }
 #endif
